@@ -69,6 +69,9 @@ def cases(tier, seed):
     # larger scope: hundreds / thousands of cycles of mixed length, with gaps
     for K in (300, 2500):
         yield ('stat-big', K, seed)
+    # the container route: Cycles object, both modes, both outputs
+    for lens in ((20, 28, 18, 32, 22), (24, 24, 24), (17, 40, 9, 33, 16, 21, 60)):
+        yield ('stat-cycles', lens, seed)
     for nb, lm in b['bins_len'].items():
         for s in enum.sequences(range(2 * nb), 1, lm):
             yield ('bins', nb, s, seed)
@@ -83,7 +86,7 @@ def cases(tier, seed):
 
 def decode_case(c):
     c = list(c)
-    if c[0] == 'stat':
+    if c[0] in ('stat', 'stat-cycles'):
         c[1] = tuple(c[1])
     elif c[0] == 'bins':
         c[2] = tuple(c[2])
@@ -107,7 +110,13 @@ def check_stat_big(case):
     vals = np.cos(np.arange(n) * 0.37) * (1 + (np.arange(n) % 13))
     viols = []
     trans = 0
-    for name, f in (('mean', np.mean), ('max', np.max), ('sum', np.sum), ('len', len)):
+    def last_minus_first(v):
+        return v[-1] - v[0]
+
+    def weighted(v):
+        return float(np.dot(v, np.arange(len(v))))
+    for name, f in (('mean', np.mean), ('max', np.max), ('sum', np.sum), ('len', len), ('first', first), ('last', last),
+                    ('last_minus_first', last_minus_first), ('position_weighted', weighted)):
         want = np.array([f(vals[lab == c]) for c in range(K)], dtype=float)
         for out in (None, 'samples'):
             try:
@@ -122,8 +131,55 @@ def check_stat_big(case):
     return Outcome(cls='stat:K=3', transitions=trans, viols=viols, nontrivial=True)
 
 
+def check_stat_cycles(case):
+    from emd.cycles import get_cycle_stat, Cycles
+    _, lens, seed = case
+    phase = np.concatenate([(np.arange(n) + 0.37) / n * 2 * np.pi for n in lens])
+    n = len(phase)
+    vals = np.sin(phase) * (1 + 0.01 * np.arange(n))
+    starts = np.cumsum((0,) + tuple(lens[:-1]))
+    viols = []
+    trans = 0
+    for cache in (True, False):
+        C = Cycles(phase.copy(), use_cache=cache)
+        for mode in ('cycle', 'augmented'):
+            for name, f in (('mean', np.mean), ('max', np.max), ('first', first)):
+                want = []
+                for c, (a, ln) in enumerate(zip(starts, lens)):
+                    if mode == 'cycle':
+                        want.append(f(vals[a:a + ln]))
+                    elif c == 0:
+                        want.append(np.nan)
+                    else:
+                        pa = starts[c - 1]
+                        i = a
+                        while i > pa and phase[i - 1] > 1.5 * np.pi:
+                            i -= 1
+                        want.append(f(vals[i:a + ln]))
+                want = np.array(want, dtype=float)
+                for out in (None, 'samples'):
+                    try:
+                        got = np.asarray(get_cycle_stat(C, vals.copy(), mode=mode, out=out, func=f), dtype=float)
+                    except Exception as e:
+                        if mode == 'augmented' and not cache:
+                            continue    # the uncached augmented path indexes with None for cycle 0: outside this oracle
+                        viols.append(('stat-cycles:raise:%s' % type(e).__name__, 'cycle lengths %r mode=%s out=%r func=%s cache=%s raised %r' % (lens, mode, out, name, cache, e)))
+                        continue
+                    trans += 1
+                    got = got.reshape(-1)       # the container keeps its cycle vector as a column; layout is not judged here
+                    if out is None:
+                        exp = want
+                    else:
+                        exp = np.repeat(want, lens)     # constant within each cycle (the cycle's own samples), nothing else
+                    if got.shape != exp.shape or not np.allclose(got, exp, rtol=1e-12, atol=1e-12, equal_nan=True):
+                        viols.append(('stat-cycles:%s:%s' % (mode, 'projection' if out else 'value'),
+                                      'cycle lengths %r mode=%s out=%r func=%s cache=%s: got %s expected %s' % (
+                                          lens, mode, out, name, cache, got.tolist()[:8], exp.tolist()[:8])))
+    return Outcome(cls='stat:K=3', transitions=trans, viols=viols, nontrivial=True)
+
+
 def check_case(case):
-    return {'stat': check_stat, 'bins': check_bins, 'align': check_align, 'stat-big': check_stat_big}[case[0]](case)
+    return {'stat-cycles': check_stat_cycles, 'stat': check_stat, 'bins': check_bins, 'align': check_align, 'stat-big': check_stat_big}[case[0]](case)
 
 
 class Recorder:
